@@ -931,6 +931,19 @@ def fam_rootwatch(rnd, i):
     return steps
 
 
+def fam_badarg(rnd, i):
+    """Add arguments that no file can have: a NUL byte inside the path.  The Add fails and the watch set stays as it was."""
+    w = "w1"
+    raw = rnd.choice(["d1/a\x00b", "a\x00", "\x00", "d1\x00/n1"])
+    a = {"abs": False, "c": ["BADARG"], "raw": raw}
+    steps = [fs("mkdir", ("d1",)), fs("create", ("d1", "n1")), new(w, 0), call(w, "add", ("d1",), "rel"),
+             {"s": "call", "w": w, "t": "t1", "op": "add", "arg": a}, call(w, "watchlist"), obs(w),
+             {"s": "call", "w": w, "t": "t1", "op": "add", "arg": dict(a, raw=raw + "x")}, call(w, "watchlist"),
+             {"s": "call", "w": w, "t": "t1", "op": "remove", "arg": a}, fs("chmod", ("d1", "n1")), drain(w), call(w, "watchlist"), obs(w)]
+    steps += epilogue(w)
+    return steps
+
+
 def fam_moves(rnd, i, depth=30):
     """Rename correlation: moves within / between watched directories, in from and out to
     unwatched places (leaving unmatched cookies behind), plain creates and hard links in between."""
@@ -1808,7 +1821,7 @@ FAMS = {
     "cycle": fam_cycle, "newclose": fam_newclose, "overflow": fam_overflow, "moves": fam_moves, "multi": fam_multi,
     "absorb": fam_absorb, "withops": fam_withops, "repoint": fam_repoint, "stall": fam_stall, "spell": fam_spell,
     "endwatch": fam_endwatch, "paced": fam_paced, "ovfstall": fam_ovfstall, "ovflate": fam_ovflate,
-    "parmoves": fam_parmoves, "multix": fam_multix, "recurse": fam_recurse, "cwd": fam_cwd, "readfault": fam_readfault, "dselfskip": fam_dselfskip, "heldparent": fam_heldparent, "reops": fam_reops, "ovfend": fam_ovfend, "rootwatch": fam_rootwatch, "slowpair": fam_slowpair, "capsweep": fam_capsweep, "wlpark": fam_wlpark, "recerr": fam_recerr,
+    "parmoves": fam_parmoves, "multix": fam_multix, "recurse": fam_recurse, "cwd": fam_cwd, "readfault": fam_readfault, "dselfskip": fam_dselfskip, "heldparent": fam_heldparent, "reops": fam_reops, "ovfend": fam_ovfend, "rootwatch": fam_rootwatch, "badarg": fam_badarg, "slowpair": fam_slowpair, "capsweep": fam_capsweep, "wlpark": fam_wlpark, "recerr": fam_recerr,
     "kqdir": fam_kqdir, "kqsym": fam_kqsym, "kqburst": fam_kqburst, "kqcycle": fam_kqcycle, "kqfault": fam_kqfault, "kqdot": fam_kqdot, "kqredir": fam_kqredir, "kqblind": fam_kqblind, "kqseq": fam_kqseq, "kqkfault": fam_kqkfault, "kqnested": fam_kqnested,
 }
 
